@@ -112,7 +112,7 @@ def member_class(beh):
 
 
 SCRIPTS = ("solve", "solve+model", "solve+value", "solve-push-solve", "is_sat", "solve-twice", "is_sat-add-solve",
-           "push-is_sat-pop-solve", "push-pop0-solve", "is_sat-push-pop-solve")
+           "push-is_sat-pop-solve", "push-pop0-solve", "is_sat-push-pop-solve", "solve+values12")
 # scripts with their own configurations (see configs): assumptions; a failing second query followed by get_model
 EXTRA_SCRIPTS = ("solve-assume", "solve-failsolve-model", "failed-is_sat-then-solve")
 
@@ -224,6 +224,13 @@ def make_body(env, names, script, exit_on_exception, unsat):
                 model = p.get_model()
                 val = {"a": model.get_py_value(a), "b": model.get_py_value(b)}
                 obs["model_ok"] = bool(holds(base, val))
+            elif obs["verdict"] and script == "solve+values12":
+                # more values in one call than a pipe buffers (sched.PIPE_CAP): requests and answers must alternate
+                terms = [a, b, m.Or(a, b), m.And(a, b), m.Not(a), m.Not(b), m.Iff(a, b), m.Implies(a, b), m.Implies(b, a),
+                         m.Or(a, m.Not(b)), m.And(a, m.Not(b)), m.Not(m.And(a, b))]
+                vals = p.get_values(terms)
+                val = {"a": vals[a].constant_value(), "b": vals[b].constant_value()}
+                obs["model_ok"] = bool(holds(base, val)) and all(vals[t].constant_value() == bool(holds(t, val)) for t in terms)
             elif obs["verdict"] and script == "solve+value":
                 val = {"a": p.get_value(a).constant_value(), "b": p.get_value(b).constant_value()}
                 obs["model_ok"] = bool(holds(base, val))
@@ -287,7 +294,7 @@ def expected(script, unsat, behs=()):
             e["model_ok"] = True
         return e
     e = {"verdict": sat}
-    if script in ("solve+model", "solve+value") and sat:
+    if script in ("solve+model", "solve+value", "solve+values12") and sat:
         e["model_ok"] = True
     if script == "solve-push-solve":
         e["verdict2"] = False   # (a|b) & !a & !b and a & !a & ... are both unsat
